@@ -22,6 +22,7 @@ inductive Cell
   | dword (v : BitVec 32) (bits : Nat)    -- low `bits` bits defined
   | vec (tok : Nat) (bytes : Nat)         -- `bytes` bytes of vector token `tok`, starting at its byte 0
   | ptr (off : Int)                       -- a stored pointer (register-size cell)
+  | small (v : BitVec 64) (bytes : Nat)   -- a 1- or 2-byte spill slot
   deriving DecidableEq, Repr
 
 structure M where
@@ -35,6 +36,7 @@ def cellSize (is64 : Bool) : Cell → Nat
   | .dword _ _ => 4
   | .vec _ n => n
   | .ptr _ => if is64 then 8 else 4
+  | .small _ n => n
 
 def M.getGp (m : M) (id : Nat) : Option GVal := (m.gp.find? (·.1 == id)).map (·.2)
 def M.setGp (m : M) (id : Nat) (v : GVal) : M := { m with gp := (id, v) :: m.gp.filter (·.1 != id) }
@@ -82,7 +84,8 @@ def readGpPartial (m : M) (id rt : Nat) : Option (BitVec 64 × Nat) :=
   | _ => none
 
 def storeNum (m : M) (a : Int) (size : Nat) (v : BitVec 64) (bits : Nat := 64) : Option M :=
-  if size = 4 then some (m.store a (.dword (v.truncate 32) (min bits 32)))
+  if size = 1 || size = 2 then (if bits ≥ 8 * size then some (m.store a (.small (v &&& BitVec.ofNat 64 (2 ^ (8 * size) - 1)) size)) else none)
+  else if size = 4 then some (m.store a (.dword (v.truncate 32) (min bits 32)))
   else if size = 8 then
     some ((m.store a (.dword (v.truncate 32) (min bits 32))).store (a + 4) (.dword ((v >>> 32).truncate 32) (min (bits - 32) 32)))
   else none
@@ -97,6 +100,7 @@ def loadNum (m : M) (a : Int) (size : Nat) : Option (BitVec 64 × Nat) :=
       | some (.dword hi hb) => some ((hi.zeroExtend 64 <<< 32) ||| lo.zeroExtend 64, if lb = 32 then 32 + hb else lb)
       | _ => none
     else none
+  | some (.small v n) => if size = n then some (v, 8 * n) else none
   | _ => none
 
 /-- one instruction; `none` = something this machine does not know -/
@@ -107,7 +111,14 @@ def step (m : M) (i : XI) : Option M :=
     if gpGroup rt && gpGroup rs then
       match m.getGp s with
       | some (.ptr p) => if rtBits rt = (if m.is64 then 64 else 32) then some (m.setGp id (.ptr p)) else none
-      | some (.num _ _) => (readGp m s rs).map fun v => writeGp m id rt v
+      | some (.num _ _) =>
+        (readGpPartial m s rs).map fun (v, b) =>
+          if b ≥ rtBits rs then writeGp m id rt v
+          else
+            -- a copy of a partly defined register: the defined low bits travel, the rest stays undefined
+            (match (writeGp m id rt v).getGp id with
+             | some (.num w _) => m.setGp id (.num w b)
+             | _ => m)
       | none => none
     else none
   | .mov, [.mem b o sz, .imm v] =>
@@ -130,6 +141,11 @@ def step (m : M) (i : XI) : Option M :=
       let sv : BitVec 64 := if b = 8 then sext8 v else if b = 16 then sext16 v else sext32 v
       writeGp m id rt sv
   | .movzx, [.reg rt id, .reg rs s] => (readGp m s rs).map fun v => writeGp m id rt v
+  | .movzx, [.reg rt id, .mem b o sz] =>
+    (addrOf m b o).bind fun a => (loadNum m a sz).bind fun (v, bits) => if bits ≥ 8 * sz then some (writeGp m id rt v) else none
+  | .movsx, [.reg rt id, .mem b o sz] | .movsxd, [.reg rt id, .mem b o sz] =>
+    (addrOf m b o).bind fun a => (loadNum m a sz).bind fun (v, bits) =>
+      if bits ≥ 8 * sz then some (writeGp m id rt (if sz = 1 then sext8 v else if sz = 2 then sext16 v else sext32 v)) else none
   | .lea, [.reg _ id, .mem b o _] => (addrOf m b o).map fun a => m.setGp id (.ptr a)
   | .and_, [.mem b o 4, .imm v] =>
     (addrOf m b o).bind fun a => if v = 0 then some (m.store a (.dword 0 32)) else none
